@@ -25,9 +25,10 @@ def compare_histogram(ctx):
 PROP = {
     "generators": [{"script": "gen_store.py"}],
     "hooks": ["compare_histogram"],
-    "lean_targets": ["MultiProofs.C07", "MultiProofs.GenTieStore"],
+    "lean_targets": ["MultiProofs.C07", "MultiProofs.GenTieStore", "MultiProofs.CodeRefinesC07"],
     "lean_module": "MultiProofs.C07",
     "theorems": [
+        "Multi.CodeRefines.code_eq_iff",
         "Multi.GenTieStore.AR_eq_tie",
         "Multi.GenTieStore.comparison_is_the_code",
         "Multi.GenTieStore.V_lex_tie",
